@@ -174,6 +174,16 @@ theorem foldl_append_singleton {α β} (f : α → β) (l : List α) (init : Lis
   | nil => simp
   | cons a t ih => simp [ih]
 
+/-- an accumulation loop that appends under a test (`for x in xs: if q: out.append(f)`) is a
+    comprehension with a filter -/
+theorem foldl_append_if {α β} (f : α → β) (q : α → Bool) (l : List α) (init : List β) :
+    l.foldl (fun st x => if q x = true then st ++ [f x] else st) init = init ++ (l.filter q).map f := by
+  induction l generalizing init with
+  | nil => simp
+  | cons a t ih =>
+    simp only [List.foldl_cons, List.filter_cons]
+    cases q a <;> simp [ih]
+
 theorem foldl_congr_step {α β} (f g : β → α → β) (l : List α) (init : β) (h : ∀ st x, f st x = g st x) :
     l.foldl f init = l.foldl g init := by
   have : f = g := funext fun st => funext fun x => h st x
